@@ -3,6 +3,9 @@ import gfapy
 class SameID:
 
   def _process_not_unique(self, previous):
+    if previous.__class__ is not self.__class__:
+      # only group lines of the same type can share an ID
+      return super()._process_not_unique(previous)
     self._gfa = previous.gfa
     self._initialize_references()
     cur_items = self.get("items")
